@@ -29,8 +29,25 @@ def build_engine(tier):
     return e, reg
 
 
-def _verify_one(args):
+def _split_one(args):
+    """Run the root path of a heavy (function, case) job and return the sub-tree prefixes found along it."""
     key, case, tier = args
+    try:
+        e, reg = build_engine(tier)
+        rep = e.verify(key, only_case=case, split_only=True)
+        res = []
+        for k, r in e.results.items():
+            r = dict(r)
+            r["id"] = f"{r['fn']}/{r['name']}"
+            res.append(r)
+        return key, case, [list(p) for p in e.split_pending], None, rep, res
+    except Exception:
+        return key, case, [], traceback.format_exc(), None, []
+
+
+def _verify_one(args):
+    key, case, tier = args[:3]
+    roots = args[3] if len(args) > 3 else None
     try:
         e, reg = build_engine(tier)
         t0 = time.time()
@@ -38,7 +55,7 @@ def _verify_one(args):
             reg.LEMMAS[key](e)
             rep = dict(key=key, paths=0, undecided=[], cases={}, time_s=time.time() - t0, sha256=None)
         else:
-            rep = e.verify(key, only_case=case)
+            rep = e.verify(key, only_case=case, roots=roots)
         res = []
         for k, r in e.results.items():
             r = dict(r)
@@ -87,9 +104,20 @@ def main(argv=None):
             else:
                 jobs += [(k, cn, tier) for cn, _ in e0.contracts[k].cases]
         # longest jobs first (recorded cost hints), so that the pool is balanced
-        jobs.sort(key=lambda j: -reg.COST.get(j[0], 1))
+        heavy = [j for j in jobs if reg.COST.get(j[0], 1) >= 50]
+        light = [j for j in jobs if reg.COST.get(j[0], 1) < 50]
         with mp.get_context("fork").Pool(min(a.jobs, max(1, len(jobs)))) as pool:
-            outs = pool.map(_verify_one, jobs, chunksize=1)
+            # heavy jobs are split into the sub-trees hanging off their root path (two levels), explored in parallel
+            split = pool.map(_split_one, heavy, chunksize=1)
+            sub, root_outs = [], []
+            for (k, cn, prefixes, err, rep, res) in split:
+                if err:
+                    print(f"CHECKER-ERROR while splitting {k}/{cn}:\n{err}", file=sys.stderr)
+                    return 3
+                root_outs.append((k, rep, res, None))  # the root path itself
+                sub += [(k, cn, tier, [p]) for p in prefixes]
+            light.sort(key=lambda j: -reg.COST.get(j[0], 1))
+            outs = root_outs + pool.map(_verify_one, sub + light, chunksize=1)
     except Exception:
         traceback.print_exc()
         return 3
@@ -108,6 +136,10 @@ def main(argv=None):
             else:
                 fn_reports[k] = rep
         results.extend(res)
+    uniq = {}
+    for r in results:
+        uniq.setdefault((r["fn"], r["name"], tuple(r.get("path") or ()), r.get("line")), r)
+    results = list(uniq.values())
     # ---- verdicts ------------------------------------------------------------------------------
     known = [f for f in load_known() if f.get("property") == pid and f.get("status") == "known"]
     failed = [r for r in results if r["verdict"] == "failed"]
